@@ -439,7 +439,11 @@ def parse_print_assumptions(out):
             if cur is not None:
                 res.append(cur)
             cur = 'Axioms:'
-        elif cur is not None and (' : ' in line or line.startswith(' ')):
+        elif cur is not None and line.strip() and (
+                ' : ' in line or line.startswith(' ')
+                or re.fullmatch(r'[A-Za-z_][\w.\']*', line.strip())):
+            # "name : type", a continuation line, or a name alone on its
+            # line (its type follows on the next line)
             cur += ' ' + re.sub(r'\s+', ' ', line).strip()
         elif cur is not None:
             res.append(cur)
